@@ -84,12 +84,17 @@ Qed.
 Lemma visit_st_pre9_yields n : yields9 (visit_st_pre9 n) (fun _ => [ak2_999 n]).
 Proof.
   unfold visit_st_pre9, ak2_999. destruct (tn_id n) as [id|]; [|intros v v' a lp gc sc k W H; se_inv H].
-  destruct (tn_ctl n) as [ctl|]; [|intros v v' a lp gc sc k W H; se_inv H].
-  intros v v' a lp gc sc k W H. apply bind_ok in H as (v1 & ak2 & H1 & H2). se_inv H1.
-  assert (EA : ak2 = mkseg "AK2" ([val (Some id); strip_ws (val (Some ctl))] ++ match tn_vriic n with Some v => [v] | None => [] end)).
-  { unl. rewrite parse_AK2', set_ak2_01 in E. cbn [bind] in E. rewrite set_ak2_02 in E. cbn [bind] in E.
-    destruct (tn_vriic n) as [vr|]; [rewrite set_ak2_03 in E|]; injection E as <-; reflexivity. }
-  subst ak2. eapply (yields9_write _ "AK2"); eauto; reflexivity.
+  destruct (tn_ctl n) as [ctl|].
+  - intros v v' a lp gc sc k W H. apply bind_ok in H as (v1 & ak2 & H1 & H2). se_inv H1.
+    assert (EA : ak2 = mkseg "AK2" ([val (Some id); strip_ws (val (Some ctl))] ++ match tn_vriic n with Some v => [v] | None => [] end)).
+    { unl. rewrite parse_AK2', set_ak2_01 in E. cbn [bind] in E. rewrite set_ak2_02 in E. cbn [bind] in E.
+      destruct (tn_vriic n) as [vr|]; [rewrite set_ak2_03 in E|]; injection E as <-; reflexivity. }
+    subst ak2. eapply (yields9_write _ "AK2"); eauto; reflexivity.
+  - intros v v' a lp gc sc k W H. apply bind_ok in H as (v1 & ak2 & H1 & H2). se_inv H1.
+    assert (EA : ak2 = mkseg "AK2" ([val (Some id); strip_ws (val None)] ++ match tn_vriic n with Some v => [v] | None => [] end)).
+    { unl. rewrite parse_AK2', set_ak2_01 in E. cbn [bind] in E. rewrite set_ak2_02 in E. cbn [bind] in E.
+      destruct (tn_vriic n) as [vr|]; [rewrite set_ak2_03 in E|]; injection E as <-; reflexivity. }
+    subst ak2. eapply (yields9_write _ "AK2"); eauto; reflexivity.
 Qed.
 
 Lemma visit_st_post9_yields t : yields9 (visit_st_post9 t) (fun h => at_ (h_st h) t (fun n => [ik5_999 h n])).
